@@ -8,6 +8,14 @@ SetsA == << <<"a", "b", "c">>, <<"b", "c", "d">>, <<"d", "a">> >>
 SetsB == << <<"a", "b", "c", "d">>, <<"a", "b", "c", "d", "e">>, <<"e">> >>
 \* F: fork-choice configuration, no announcements
 SetsF == << <<"a", "b", "c">>, <<"a", "b", "c">> >>
+\* C, D: clique (msc); Sets[1] is unused there, Sets[2] is the signer list of the checkpoint genesis (names are assigned
+\* in address order by the driver), Sets[3] a list that a checkpoint header must not carry
+SetsC == << <<"a", "b", "c">>, <<"a", "b", "c">>, <<"a", "b", "d">> >>
+SetsD == << <<"a", "b", "c", "d", "e">>, <<"a", "b", "c", "d", "e">> >>
+CliqueDefects == {"novanity", "noseal", "badlist", "mix", "uncle", "diff0", "diff3", "number", "future", "time", "badsig", "nonce"}
+\* P: polygon bor inside one sprint: the genesis snapshot's validators (address order), proposer = GenesisSigner
+SetsP == << <<"a", "b", "c">>, <<"a", "b", "c">>, <<"a", "b", "d">> >>
+BorDefects == {"novanity", "noseal", "badlist", "mix", "uncle", "number", "future", "time", "badsig"}
 AllDefects == {"novanity", "noseal", "badlist", "mix", "uncle", "diff0", "diff3", "number", "gasused",
                "gaslimit", "future", "time", "coinbase", "badsig"}
 =============================================================================
